@@ -579,7 +579,10 @@ class ProgGen:
                 plus = nm in defined and t in (NUM, STR) and r.chance(0.4)
                 vis = r.choice([":", ":", ":", "::", ":::"])
                 k = r.below(100)
-                if k < 50 or d <= 0:
+                if plus and t == STR and r.chance(0.5):
+                    # `+:` chains whose values make + non-associative (string, number, number)
+                    body = self.gen(NUM, lenv, 0)
+                elif k < 50 or d <= 0:
                     body = self.gen(t, lenv, max(d - 1, 0))
                 elif k < 70 and t == NUM:
                     # late-bound reference to another field of the final object
